@@ -600,6 +600,17 @@ class Check:
         p = os.path.join(self.out, name)
         with open(p, "w") as f:
             f.write(text)
+        if name.endswith(".c"):
+            # mechanical scan: every assumption in the unit (harness preconditions, instantiations, stub contracts) is listed in the evidence
+            seen = []
+            for ln in text.split("\n"):
+                if "__CPROVER_assume(" in ln and "#define __CPROVER_assume" not in ln:
+                    t = " ".join(ln.split())
+                    if t not in seen:
+                        seen.append(t[:260])
+            scan = self.extra.setdefault("assume_scan", {})
+            if len(scan) < 6:
+                scan[name] = {"count": len(seen), "statements": seen[:60]}
         return p
 
     def replay_path(self, tag):
